@@ -439,12 +439,17 @@ func Timeout[T any](duration time.Duration) func(Observable[T]) Observable[T] {
 		return NewObservableWithContext(func(subscriberCtx context.Context, destination Observer[T]) Teardown {
 			var sub Subscription
 
+			// atomic.Value panics when values of different concrete types are stored:
+			// contexts come in many (backgroundCtx, valueCtx, cancelCtx...), so they are
+			// stored behind a struct of a single type.
+			type contextHolder struct{ ctx context.Context }
+
 			var lastCtx atomic.Value
 
-			lastCtx.Store(subscriberCtx) // if no value is emitted, we use the subscriber context
+			lastCtx.Store(contextHolder{subscriberCtx}) // if no value is emitted, we use the subscriber context
 
 			timer := time.AfterFunc(duration, func() {
-				destination.ErrorWithContext(lastCtx.Load().(context.Context), newTimeoutError(duration)) //nolint:errcheck,forcetypeassert
+				destination.ErrorWithContext(lastCtx.Load().(contextHolder).ctx, newTimeoutError(duration)) //nolint:errcheck,forcetypeassert
 			})
 
 			sub = source.SubscribeWithContext(
@@ -455,7 +460,7 @@ func Timeout[T any](duration time.Duration) func(Observable[T]) Observable[T] {
 						destination.NextWithContext(ctx, value)
 						// @TODO: what happens if the above line is too slow?
 						timer.Reset(duration)
-						lastCtx.Store(ctx)
+						lastCtx.Store(contextHolder{ctx})
 					},
 					func(ctx context.Context, err error) {
 						timer.Stop()
